@@ -20,6 +20,19 @@
 //       std::invalid_argument -- the 1st, 2nd, 3rd time alike --, never throws otherwise; after a set_shift that returned normally
 //       perform_op equals the fresh solve bit for bit (hence finite whenever that is) and satisfies the residual predicate.
 //       The model (`whist` lines: Model/BKLDLT.lean DenseShift + translated guard) answers the same history.
+//   (e) STRUCTURED RIGHT-HAND SIDES (part "rhs"): one factorization (two objects: one triangle each), MANY solves.  The right-hand sides
+//       have exact zeros placed relative to the pivot structure the real object reports (m_perm / m_permc through the guarded access):
+//       every unit vector e_j, unit vectors in permuted coordinates at the first / second row of a 2x2 block, dense vectors that are
+//       zero (+0 or -0) on the first / second / both rows of a 2x2 block or on a 1x1 pivot row, 1-3 nonzeros, the zero vector, all -0,
+//       mixed signed zeros, leading / trailing zero runs (original and permuted coordinates), the dense vector as control.
+//       Oracle: residual predicate for every solve, Lower- and Upper-triangle objects agree bitwise, DenseSymShiftSolve::perform_op
+//       equals solve.  Correspondence: the whole list goes to the model as one `hist` line (C + many S, bit exact; double, float,
+//       complex<double>) and, for double, as one `whist` line (T + many P).
+//   (f) SPECIAL MATRICES (idx >= SPECIAL_BASE, kinds "pivot-pattern" and "tie", run through ALL parts above): prescribed pivot
+//       patterns (2x2 block first / last / in the middle / everywhere / mixed 1x1-2x2, dense weak coupling so that L is full), exact
+//       TIES in the three pivot comparisons (|a_kk| = alpha*lambda, sigma*|a_kk| = alpha*lambda^2, |a_rr| = alpha*sigma, each also one ulp
+//       below / above, in the working precision of double AND float), equal magnitudes in the column-maximum searches (real +-v,
+//       complex entries of equal modulus 1 / 5), sizes 1, 2, 3.
 #include "common.h"
 #include <Eigen/Core>
 #include <Eigen/SVD>
@@ -48,12 +61,14 @@ struct SpectraVerifAccess {
 };
 
 // ------------------------------------------------------------------ cases
-static const char* KN[] = {"spd", "indefinite", "zerodiag", "blockdiag", "graded", "integer", "exact-singular", "shift-diag", "tridiag-2x2", "corpus"};
+static const char* KN[] = {"spd", "indefinite", "zerodiag", "blockdiag", "graded", "integer", "exact-singular", "shift-diag", "tridiag-2x2", "corpus", "pivot-pattern", "tie"};
+static const long SPECIAL_BASE = 1000000;     // idx >= SPECIAL_BASE: gen_special (kinds 10, 11)
 struct Case {
     int kind = 0, n = 1; double shift = 0; long idx = 0;
     std::vector<double> re, im;      // logical full Hermitian matrix, (i,j) at i + j*n; im is skew (zero for real scalars)
     std::vector<double> b, bim;
     bool expect_singular = false, expect_nonsingular = false;
+    std::vector<int> want_bs; int variant = -1, tie_w = -1; bool permuted = false;   // special matrices: intended block sizes, tie sub-variant (0 exact, 1 one ulp below, 2 above)
     double& A(int i, int j) { return re[i + (size_t) j * n]; }
     double a(int i, int j) const { return re[i + (size_t) j * n]; }
     double ai(int i, int j) const { return i > j ? im[i + (size_t) j * n] : i < j ? -im[j + (size_t) i * n] : 0.0; }   // exactly skew, signed zeros included
@@ -67,7 +82,74 @@ static void permute_sym(Case& c, Rng& r) {
     for (int i = 0; i < n; i++) for (int j = 0; j < n; j++) { c.re[i + (size_t) j * n] = re[p[i] + (size_t) p[j] * n]; c.im[i + (size_t) j * n] = im[p[i] + (size_t) p[j] * n]; }
 }
 
+// ------------------------------------------------------------------ special matrices: prescribed pivot patterns, ties (idx >= SPECIAL_BASE)
+// variant = j mod 8:  0 2x2 block first | 1 2x2 block last | 2 one 2x2 block in the middle | 3 2x2 blocks only | 4 random mix of 1x1 and 2x2
+//                     5 tie |a_kk| = alpha*lambda | 6 ties sigma*|a_kk| = alpha*lambda^2 and |a_rr| = alpha*sigma | 7 equal magnitudes / sizes 1..3
+// Ties are exact in the working precision selected by (j / 8) mod 2: 0 = double, 1 = float (all entries float-representable, alpha = (float) alpha).
+static Case gen_special(uint64_t seed, long j, bool thorough) {
+    Rng r(seed, 14, (uint64_t) j); Case c; c.idx = SPECIAL_BASE + j;
+    const int variant = (int) (j % 8); const bool fprec = ((j / 8) % 2) == 1; c.variant = variant;
+    const double alpha_d = (1.0 + std::sqrt(17.0)) / 8.0; const double alpha = fprec ? (double) (float) alpha_d : alpha_d;
+    auto rnd = [&](double x) { return fprec ? (double) (float) x : x; };                       // representable in the tie precision
+    auto mul = [&](double a, double b) { return fprec ? (double) ((float) a * (float) b) : a * b; };   // product as the code forms it
+    auto nudge = [&](double v, int w) {                                                        // w = 0 exact, 1 one ulp towards 0, 2 one ulp away
+        if (w == 0) return v;
+        if (fprec) { float f = (float) v; return (double) std::nextafterf(f, w == 1 ? 0.0f : (f > 0 ? 1e30f : -1e30f)); }
+        return std::nextafter(v, w == 1 ? 0.0 : (v > 0 ? 1e300 : -1e300)); };
+    auto sgn = [&]() { return r.coin() ? 1.0 : -1.0; };
+    if (variant <= 4) {
+        c.kind = 10;
+        int n = thorough ? (r.coin(0.7) ? r.range(2, 14) : r.range(15, 40)) : (r.coin(0.6) ? r.range(2, 8) : r.range(9, 18));
+        std::vector<int> bs;                                       // block sizes
+        if (variant == 0) { if (n < 3) n = 3; bs.push_back(2); for (int i = 2; i < n; i++) bs.push_back(1); }
+        else if (variant == 1) { if (n < 3) n = 3; for (int i = 0; i < n - 2; i++) bs.push_back(1); bs.push_back(2); }
+        else if (variant == 2) { if (n < 4) n = 4; int at = r.range(1, n - 3); for (int i = 0; i < at; i++) bs.push_back(1); bs.push_back(2); for (int i = at + 2; i < n; i++) bs.push_back(1); }
+        else if (variant == 3) { if (n % 2) n++; for (int i = 0; i < n; i += 2) bs.push_back(2); }
+        else { int i = 0; while (i < n) { int b = (n - i >= 2 && r.coin(0.5)) ? 2 : 1; bs.push_back(b); i += b; } }
+        c.n = n; c.re.assign((size_t) n * n, 0.0); c.im.assign((size_t) n * n, 0.0);
+        const double cpl = std::min(0.15, 1.0 / n); const bool zd = r.coin(0.4);
+        for (int i = 0; i < n; i++) for (int q = 0; q < i; q++) c.sym(i, q, cpl * r.sym(), cpl * r.sym());     // dense weak coupling: L has no zero entries
+        int i = 0; for (int b : bs) {
+            if (b == 1) c.sym(i, i, sgn() * (2.0 + r.unit()), 0);
+            else { c.sym(i, i, zd ? 0.0 : 0.05 * r.sym(), 0); c.sym(i + 1, i + 1, (zd || r.coin(0.3)) ? 0.0 : 0.05 * r.sym(), 0); c.sym(i + 1, i, sgn() * (1.0 + r.unit()), 0.3 * r.sym()); }
+            i += b; }
+        c.want_bs = bs; if (r.coin(0.3)) { permute_sym(c, r); c.permuted = true; }
+        c.shift = r.coin(0.7) ? 0.0 : 0.01 * r.sym();
+    } else {
+        c.kind = 11;
+        int n = variant == 7 ? r.range(1, 5) : variant == 5 ? r.range(2, 6) : r.range(3, 6);
+        c.n = n; c.re.assign((size_t) n * n, 0.0); c.im.assign((size_t) n * n, 0.0); c.shift = 0;
+        if (variant == 5) {          // |a_00| vs alpha*lambda, lambda = |a_r0| (largest of column 0, real entry)
+            const double L = r.coin(0.5) ? std::ldexp(1.0, r.range(-2, 2)) : rnd(1.0 + r.unit()); const int rr = r.range(1, n - 1);
+            for (int i = 0; i < n; i++) for (int q = 0; q <= i; q++) c.sym(i, q, rnd(0.9 * L * r.sym()), i == q ? 0 : rnd(0.3 * L * r.sym()));
+            for (int i = 1; i < n; i++) c.sym(i, 0, rnd(0.6 * L * r.sym()), rnd(0.3 * L * r.sym()));
+            c.sym(rr, 0, sgn() * L, 0);
+            c.tie_w = r.range(0, 2); c.sym(0, 0, sgn() * nudge(mul(alpha, L), c.tie_w), 0);
+        } else if (variant == 6) {   // lambda = 1 at (rr,0); sigma = 2 at (p,rr); a_00 = alpha/2 (tie of the 2nd test) or one ulp below, then a_rr = 2 alpha (tie of the 3rd test) -/+ one ulp
+            const int rr = r.range(1, n - 1); int p = r.range(1, n - 1); if (p == rr) p = (rr == n - 1) ? 1 : rr + 1; if (p == rr) p = 1;
+            for (int i = 0; i < n; i++) for (int q = 0; q <= i; q++) c.sym(i, q, rnd(0.8 * r.sym()), i == q ? 0 : rnd(0.3 * r.sym()));
+            c.sym(rr, 0, sgn(), 0);
+            if (p != rr && p != 0) c.sym(std::max(p, rr), std::min(p, rr), 2.0 * sgn(), 0);
+            const int w1 = r.range(0, 2) == 0 ? 0 : 1; c.tie_w = w1;     // exact tie -> 1x1 without interchange; one ulp below -> third test decides
+            c.sym(0, 0, sgn() * nudge(mul(alpha, 0.5), w1), 0);
+            c.sym(rr, rr, sgn() * nudge(mul(alpha, 2.0), r.range(0, 2)), 0);
+        } else {                     // equal magnitudes everywhere: +-v (real) resp. modulus 1 / 5 (complex), zero or tiny diagonal; sizes 1..5
+            const int fam = r.range(0, 2);
+            static const double U[8][2] = {{1, 0}, {-1, 0}, {0, 1}, {0, -1}, {5, 0}, {3, 4}, {-4, 3}, {0, -5}};
+            for (int i = 0; i < n; i++) for (int q = 0; q < i; q++) {
+                if (fam == 0) c.sym(i, q, sgn(), 0);
+                else if (fam == 1) { const double* u = U[r.range(0, 3)]; c.sym(i, q, u[0], u[1]); }
+                else { const double* u = U[r.range(4, 7)]; c.sym(i, q, u[0], u[1]); } }
+            for (int i = 0; i < n; i++) c.sym(i, i, r.coin(0.5) ? 0.0 : (double) r.range(-2, 2), 0);
+            if (n == 1 && c.a(0, 0) == 0) c.A(0, 0) = 3.0;
+        }
+    }
+    c.b.resize(c.n); c.bim.resize(c.n); for (auto& x : c.b) x = r.sym(); for (auto& x : c.bim) x = r.sym();
+    return c;
+}
+
 static Case gen_case(uint64_t seed, long idx, bool thorough, int force_n = -1) {
+    if (idx >= SPECIAL_BASE) return gen_special(seed, idx - SPECIAL_BASE, thorough);
     Rng r(seed, 10, (uint64_t) idx); Case c; c.idx = idx;
     c.kind = (int) (idx % 10);
     int n;
@@ -407,6 +489,136 @@ template <int Uplo, int Flags> static void wrappers(const Case& c, const Result<
 
 
 
+// ------------------------------------------------------------------ structured right-hand sides (part "rhs")
+struct Rhs { std::vector<double> re, im; std::string fam; };
+
+template <class S> static LD resid_ratio_b(const Case& c, double shift, const std::vector<S>& xs, const Rhs& rh) {
+    typedef typename Tr<S>::W W; typedef typename Tr<S>::R R; const int n = c.n; const LD eps = (LD) std::numeric_limits<R>::epsilon();
+    Eigen::Matrix<W, Eigen::Dynamic, Eigen::Dynamic> A(n, n); Eigen::Matrix<W, Eigen::Dynamic, 1> x(n), b(n);
+    for (int i = 0; i < n; i++) for (int j = 0; j < n; j++) { S v = Tr<S>::mk(c.a(i, j), c.ai(i, j)); A(i, j) = W(v); if (i == j) A(i, j) -= W((LD) (R) shift); }
+    for (int i = 0; i < n; i++) { x[i] = W(xs[i]); b[i] = W(Tr<S>::mk(rh.re[i], rh.im[i])); if (!(std::abs(x[i]) <= std::numeric_limits<LD>::max())) return -1; }
+    LD res = (A * x - b).norm(), bound = n * eps * (A.norm() * x.norm() + b.norm());
+    return bound > 0 ? res / bound : (res == 0 ? 0 : 1e30L);
+}
+
+// the list of right-hand sides for a factorization with pivot structure perm / permc (as reported by the real object)
+static std::vector<Rhs> gen_rhs(const Case& c, const std::vector<long>& perm, const std::vector<std::pair<long, long>>& permc, Rng& r, bool cplx) {
+    const int n = c.n; std::vector<Rhs> L;
+    auto nzv = [&]() { double v = r.coin(0.25) ? (double) r.range(1, 3) * (r.coin() ? 1 : -1) : r.sym(); return v == 0 ? 1.0 : v; };
+    auto zero = [&](bool neg) { return neg ? -0.0 : 0.0; };
+    auto mk = [&](const char* fam) { Rhs h; h.re.assign(n, 0.0); h.im.assign(n, 0.0); h.fam = fam; return h; };
+    auto dense = [&](const char* fam) { Rhs h = mk(fam); for (int i = 0; i < n; i++) { h.re[i] = nzv(); h.im[i] = cplx ? (r.coin(0.2) ? 0.0 : r.sym()) : 0.0; } return h; };
+    auto setz = [&](Rhs& h, int i, bool neg) { h.re[i] = zero(neg); h.im[i] = cplx ? zero(r.coin(0.3)) : 0.0; };
+    auto unperm = [&](Rhs h) { for (long k = (long) permc.size() - 1; k >= 0; k--) { std::swap(h.re[permc[k].first], h.re[permc[k].second]); std::swap(h.im[permc[k].first], h.im[permc[k].second]); } return h; };   // h given in permuted coordinates: b with P b = h
+    // blocks
+    std::vector<int> b2, b1; for (int i = 0; i < n;) { if (perm[i] >= 0) { b1.push_back(i); i++; } else { b2.push_back(i); i += 2; } }
+    // (1) unit vectors
+    { std::vector<int> js; if (n <= 14) for (int j = 0; j < n; j++) js.push_back(j); else { for (int t = 0; t < 12; t++) js.push_back(r.range(0, n - 1)); js.push_back(0); js.push_back(n - 1); }
+      for (int j : js) { Rhs h = mk("unit"); h.re[j] = 1.0; L.push_back(h); }
+      if (n >= 1) { Rhs h = mk("unit-scaled"); int j = r.range(0, n - 1); h.re[j] = -nzv(); if (cplx) h.im[j] = r.sym(); L.push_back(h); } }
+    // (2) relative to the 2x2 blocks (first, last, up to 3 others)
+    { std::vector<int> sel; if (!b2.empty()) { sel.push_back(b2.front()); if (b2.size() > 1) sel.push_back(b2.back()); for (int t = 0; t < 3 && b2.size() > 2; t++) sel.push_back(b2[r.range(1, (int) b2.size() - 2)]); }
+      for (int i : sel) {
+          { Rhs h = mk("perm-unit-second"); h.re[i + 1] = 1.0; L.push_back(unperm(h)); }
+          { Rhs h = mk("perm-unit-first"); h.re[i] = 1.0; L.push_back(unperm(h)); }
+          { Rhs h = dense("blk-first-zero"); setz(h, i, r.coin(0.3)); L.push_back(unperm(h)); }
+          { Rhs h = dense("blk-second-zero"); setz(h, i + 1, r.coin(0.3)); L.push_back(unperm(h)); }
+          { Rhs h = dense("blk-both-zero"); setz(h, i, r.coin(0.3)); setz(h, i + 1, r.coin(0.3)); L.push_back(unperm(h)); }
+          { Rhs h = mk("blk-first-zero-tail"); for (int t = i + 1; t < n; t++) { h.re[t] = nzv(); if (cplx) h.im[t] = r.sym(); } L.push_back(unperm(h)); }
+          if (cplx) { Rhs h = dense("blk-first-imag-only"); h.re[i] = 0.0; h.im[i] = nzv(); L.push_back(unperm(h)); }
+      }
+      if (!b1.empty()) for (int t = 0; t < 2; t++) { int i = b1[r.range(0, (int) b1.size() - 1)]; Rhs h = dense("pivot1-zero"); setz(h, i, t == 1); L.push_back(unperm(h)); } }
+    // (3) sparse
+    for (int t = 0; t < 3 && n >= 1; t++) { Rhs h = mk("sparse"); int k = r.range(1, 3); for (int q = 0; q < k; q++) { int j = r.range(0, n - 1); h.re[j] = nzv(); if (cplx) h.im[j] = r.coin(0.5) ? 0.0 : r.sym(); } L.push_back(h); }
+    // (4) zero vectors and signed zeros
+    { L.push_back(mk("zero")); Rhs h = mk("neg-zero"); for (int i = 0; i < n; i++) { h.re[i] = -0.0; if (cplx) h.im[i] = r.coin() ? -0.0 : 0.0; } L.push_back(h);
+      Rhs g = mk("mixed-zero"); for (int i = 0; i < n; i++) setz(g, i, r.coin()); if (n >= 1) g.re[r.range(0, n - 1)] = nzv(); L.push_back(g); }
+    // (5) leading / trailing zero runs, original and permuted coordinates
+    if (n >= 2) for (int t = 0; t < 4; t++) { Rhs h = dense(t < 2 ? "lead-zero" : "trail-zero"); int m = r.range(1, n - 1); bool neg = r.coin(0.2);
+        for (int i = 0; i < m; i++) setz(h, t < 2 ? i : n - 1 - i, neg); L.push_back((t % 2) ? unperm(h) : h); }
+    // (6) control
+    { Rhs h = mk("dense"); h.re = c.b; if (cplx) h.im = c.bim; L.push_back(h); }
+    return L;
+}
+
+template <int Uplo, int Flags> static void wrapper_rhs(const Case& c, const std::vector<Rhs>& L, const std::vector<std::vector<double>>& xs, int cfg, uint64_t seed, const std::string& tier, Out& out) {
+    typedef Eigen::Matrix<double, Eigen::Dynamic, Eigen::Dynamic, Flags> Mat;
+    const int n = c.n; Mat M(n, n); for (int i = 0; i < n; i++) for (int j = 0; j < n; j++) M(i, j) = c.a(i, j);
+    Spectra::DenseSymShiftSolve<double, Uplo, Flags> op(M);
+    try { op.set_shift(c.shift); } catch (...) { return; }         // graded by wrappers()
+    const double alpha = (1.0 + std::sqrt(17.0)) / 8.0;
+    std::string rq = "whist " + str(n) + " " + str(Uplo == Eigen::Upper ? 2 : 1) + " " + str(Flags == Eigen::RowMajor ? 1 : 0) + " " + str(dbits(alpha)), rs = "ok";
+    for (int i = 0; i < n * n; i++) rq += " " + str(dbits(M.data()[i]));
+    rq += " T " + str(dbits(c.shift));
+    Eigen::VectorXd b(n), y(n);
+    for (size_t k = 0; k < L.size(); k++) {
+        for (int i = 0; i < n; i++) b[i] = L[k].re[i];
+        op.perform_op(b.data(), y.data()); std::vector<double> yy(y.data(), y.data() + n);
+        out.count("rhs_wrapper_perform_op");
+        if (!same_bits(yy, xs[k]))
+            out.fail("wrapper-solve", "DenseSymShiftSolve::perform_op differs from BKLDLT::solve for a right-hand side of family " + L[k].fam + " (#" + str(k) + "); n=" + str(n),
+                     "{\"harness\":\"c10\",\"seed\":" + str(seed) + ",\"idx\":" + str(c.idx) + ",\"tier\":\"" + tier + "\",\"part\":\"rhs\",\"scalar\":\"double\",\"cfg\":" + str(cfg) + ",\"n\":" + str(n) + ",\"family\":\"" + L[k].fam + "\",\"k\":" + str(k) + ",\"event\":\"perform_op\"}");
+        rq += " P"; for (int i = 0; i < n; i++) rq += " " + str(dbits(b[i]));
+        rs += " | X"; for (double v : yy) rs += " " + fb(v);
+    }
+    if (n <= 12) { out.corr(rq, rs); out.count("corr_rhs_whist"); }
+}
+
+template <class S> static void rhs_part(const Case& c, uint64_t seed, const std::string& tier, Out& out) {
+    typedef typename Tr<S>::R R;
+    const std::string sc = Tr<S>::name(); const int n = c.n; if (n < 1) return;
+    Rng r(seed, 13, (uint64_t) c.idx);
+    const int cfgA = (int) r.below(4); const bool garbA = r.coin(0.3); const int cfgB = (cfgA ^ 1) ^ (r.coin() ? 2 : 0);     // the other triangle
+    Spectra::BKLDLT<S> fA, fB; std::vector<S> memA, memB;
+    compute_on<S>(fA, c, cfgA, garbA, c.shift, memA); compute_on<S>(fB, c, cfgB, true, c.shift, memB);
+    Snap<S> sA = snap(fA), sB = snap(fB);
+    if (sA.info != 0 || sB.info != 0) { out.count("rhs_skipped_not_successful"); return; }
+    auto rj = [&](const std::string& fam, size_t k) { return "{\"harness\":\"c10\",\"seed\":" + str(seed) + ",\"idx\":" + str(c.idx) + ",\"tier\":\"" + tier + "\",\"part\":\"rhs\",\"scalar\":\"" + sc + "\",\"cfg\":" + str(cfgA) + ",\"kind\":\"" + KN[c.kind] + "\",\"n\":" + str(n) + ",\"family\":\"" + fam + "\",\"k\":" + str(k) + "}"; };
+    // pivot structure of THIS factorization
+    bool has1 = false, has2 = false; for (int i = 0; i < n;) { if (sA.perm[i] >= 0) { has1 = true; i++; } else { has2 = true; out.count(i == 0 ? "rhs_2x2_block_first" : i + 2 == n ? "rhs_2x2_block_last" : "rhs_2x2_block_middle"); i += 2; } }
+    out.count(has1 && has2 ? "rhs_fact_mixed_1x1_2x2" : has2 ? "rhs_fact_2x2_only" : "rhs_fact_1x1_only"); out.count("rhs_fact_" + sc);
+    std::vector<Rhs> L = gen_rhs(c, sA.perm, sA.permc, r, Tr<S>::cplx);
+    typedef Eigen::Matrix<S, Eigen::Dynamic, 1> Vec;
+    const double alpha = (1.0 + std::sqrt(17.0)) / 8.0;
+    std::string rq = std::string("hist ") + Enc<S>::tag() + " " + Enc<S>::real(alpha) + " C " + str(n) + " " + str((cfgA & 1) ? 2 : 1) + " " + str((cfgA & 2) ? 1 : 0) + " " + Enc<S>::real(c.shift);
+    for (const S& v : memA) rq += " " + Enc<S>::in(v);
+    std::string rs = "C " + str(sA.info) + " 1 P"; for (long p : sA.perm) rs += " " + str(p);
+    { std::string a; for (auto& ab : sA.permc) a += (a.empty() ? "" : " ") + str(ab.first) + ":" + str(ab.second); rs += " Q " + a + "."; }
+    rs += " D"; for (const S& v : sA.data) rs += " " + Enc<S>::out(v);
+    long budget = 6000 - (long) n * n; bool svd_done = false, wellcond = false;
+    std::vector<std::vector<double>> xs_d; std::vector<Rhs> Lw;
+    for (size_t k = 0; k < L.size(); k++) {
+        const Rhs& h = L[k];
+        Vec b(n); for (int i = 0; i < n; i++) b[i] = Tr<S>::mk(h.re[i], h.im[i]);
+        // coverage: zeros relative to the blocks, in permuted coordinates
+        { Vec z = b; for (auto& ab : sA.permc) std::swap(z[ab.first], z[ab.second]);
+          for (int i = 0; i < n;) { if (sA.perm[i] >= 0) { if (z[i] == S(0)) out.count("rhs_zero_on_1x1_row"); i++; }
+              else { const bool z1 = z[i] == S(0), z2 = z[i + 1] == S(0); if (z1 && !z2) out.count(i + 2 < n ? "rhs_2x2_first_zero_second_nonzero_nontrailing" : "rhs_2x2_first_zero_second_nonzero_trailing"); if (!z1 && z2) out.count("rhs_2x2_second_zero_first_nonzero"); if (z1 && z2) out.count("rhs_2x2_both_zero"); i += 2; } } }
+        Vec xa = fA.solve(b), xb = fB.solve(b); std::vector<S> xA(xa.data(), xa.data() + n), xB(xb.data(), xb.data() + n);
+        out.count("rhs_solves_" + sc); out.count("rhs_fam_" + h.fam);
+        if (!same_bits(xA, xB)) out.fail("uplo-order-disagree", sc + ": solve(b) from the " + ((cfgA & 1) ? "Upper" : "Lower") + " and from the " + ((cfgB & 1) ? "Upper" : "Lower") + "-triangle factorization of the same matrix differ for a right-hand side of family " + h.fam + " (#" + str(k) + "); kind " + KN[c.kind] + " n=" + str(n), rj(h.fam, k));
+        LD ratio = resid_ratio_b<S>(c, c.shift, xA, h);
+        if (ratio < 0) {
+            out.count("rhs_nonfinite_solution_" + sc);
+            if (!svd_done) { typedef typename Tr<S>::W W; Eigen::Matrix<W, Eigen::Dynamic, Eigen::Dynamic> A(n, n);
+                for (int i = 0; i < n; i++) for (int j = 0; j < n; j++) { S v = Tr<S>::mk(c.a(i, j), c.ai(i, j)); A(i, j) = W(v); if (i == j) A(i, j) -= W((LD) (R) c.shift); }
+                Eigen::JacobiSVD<Eigen::Matrix<W, Eigen::Dynamic, Eigen::Dynamic>> svd(A); LD smax = svd.singularValues()[0], smin = svd.singularValues()[n - 1];
+                svd_done = true; wellcond = smin > C_SING * n * (LD) std::numeric_limits<R>::epsilon() * smax; }
+            if (wellcond) out.fail("nonfinite-solution", sc + ": Successful but solve(b) is not finite on a well-conditioned matrix for a right-hand side of family " + h.fam + " (#" + str(k) + "), kind " + KN[c.kind] + " n=" + str(n), rj(h.fam, k));
+        } else {
+            g_max["rhs_resid_ratio_" + sc] = std::max(g_max["rhs_resid_ratio_" + sc], ratio);
+            if (!(ratio <= C_RES)) out.fail("residual", sc + ": right-hand side of family " + h.fam + " (#" + str(k) + "): residual is " + str((double) ratio) + " n eps (|A-sI||x|+|b|) > " + str((double) C_RES) + " n eps (...), kind " + KN[c.kind] + " n=" + str(n) + " shift " + str(c.shift), rj(h.fam, k));
+        }
+        if (budget >= n) { budget -= n; rq += " S"; for (int i = 0; i < n; i++) rq += " " + Enc<S>::in(b[i]); rs += " | S 1 X"; for (const S& v : xA) rs += " " + Enc<S>::out(v); out.count("corr_rhs_solves_" + sc); }
+        if (std::is_same<S, double>::value) { std::vector<double> xd(n); for (int i = 0; i < n; i++) xd[i] = (double) std::real(xA[i]); xs_d.push_back(xd); Lw.push_back(h); }
+    }
+    if ((long) n * n <= 6000 - n) { out.corr(rq, rs); out.count("corr_rhs_" + sc); }
+    if (std::is_same<S, double>::value && n <= 24) {
+        switch (cfgA) { case 0: wrapper_rhs<Eigen::Lower, Eigen::ColMajor>(c, Lw, xs_d, cfgA, seed, tier, out); break; case 1: wrapper_rhs<Eigen::Upper, Eigen::ColMajor>(c, Lw, xs_d, cfgA, seed, tier, out); break;
+                        case 2: wrapper_rhs<Eigen::Lower, Eigen::RowMajor>(c, Lw, xs_d, cfgA, seed, tier, out); break; default: wrapper_rhs<Eigen::Upper, Eigen::RowMajor>(c, Lw, xs_d, cfgA, seed, tier, out); }
+    }
+}
+
 static void one_case(const Case& c, uint64_t seed, const std::string& tier, Out& out, bool corr) {
     Rng r(seed, 11, (uint64_t) c.idx);
     int cfg = (int) r.below(4); bool garb = r.coin(0.5);
@@ -424,10 +636,20 @@ static void one_case(const Case& c, uint64_t seed, const std::string& tier, Out&
         if (p >= 0) { out.count(p == i ? "pivot_1x1_nointerchange" : "pivot_1x1_interchange"); i++; }
         else { long rr = -kept.perm[i + 1] - 1; out.count(rr == i + 1 ? "pivot_2x2_nointerchange" : "pivot_2x2_interchange"); i += 2; }
     }
+    if (c.variant >= 0 && c.n >= 1) {   // special matrices: was the intended pivot pattern / tie outcome reached (double and float factorizations)
+        auto first = [&](const std::vector<long>& pm) { return c.n < 2 ? std::string("n1") : pm[0] >= 0 ? (pm[0] == 0 ? std::string("1x1_nointerchange") : std::string("1x1_interchange")) : std::string("2x2"); };
+        if (!c.want_bs.empty()) { std::vector<int> got; for (long i = 0; i < c.n;) { if (kept.perm[i] >= 0) { got.push_back(1); i++; } else { got.push_back(2); i += 2; } }
+            out.count(std::string("special_pattern_v") + str(c.variant) + (c.permuted ? "_permuted" : "") + (got == c.want_bs ? "_as_intended" : "_other")); }
+        if (c.tie_w >= 0) { const bool fprec = (((c.idx - SPECIAL_BASE) / 8) % 2) == 1;
+            out.count("tie_v" + str(c.variant) + (fprec ? "_float_w" : "_double_w") + str(c.tie_w) + "_first_pivot_" + first(fprec ? keptf.perm : kept.perm)); }
+    }
     Result<double> plain = run_cfg<double>(c, cfg, false);
     switch (cfg) { case 0: wrappers<Eigen::Lower, Eigen::ColMajor>(c, plain, seed, tier, out, cfg); break; case 1: wrappers<Eigen::Upper, Eigen::ColMajor>(c, plain, seed, tier, out, cfg); break;
                    case 2: wrappers<Eigen::Lower, Eigen::RowMajor>(c, plain, seed, tier, out, cfg); break; default: wrappers<Eigen::Upper, Eigen::RowMajor>(c, plain, seed, tier, out, cfg); }
     switch ((int) (c.idx % 3)) { case 0: history<double>(c, seed, tier, out); break; case 1: history<float>(c, seed, tier, out); break; default: history<CD>(c, seed, tier, out); }
+    // structured right-hand sides: one scalar type per ordinary case, all three on the special matrices
+    {   const bool all = c.idx >= SPECIAL_BASE; const int w = (int) ((c.idx + 1) % 3);
+        if (all || w == 0) rhs_part<double>(c, seed, tier, out); if (all || w == 1) rhs_part<float>(c, seed, tier, out); if (all || w == 2) rhs_part<CD>(c, seed, tier, out); }
     if (!corr) return;
     // ---- correspondence request: exactly the memory the class was given
     const double alpha = (1.0 + std::sqrt(17.0)) / 8.0;
@@ -501,6 +723,14 @@ int main(int argc, char** argv) {
         Case c = gen_case(a.seed, idx, a.thorough());
         { std::ofstream lc(a.out + "/lastcase.txt"); lc << replay_json(c, a.seed, a.tier, "all", -1) << "\n"; }
         one_case(c, a.seed, a.tier, out, true);
+        if (out.nfail) out.oracle.flush();
+    }
+    const long nspecial = a.thorough() ? 2400 : 320;
+    for (long j = 0; j < nspecial; j++) {
+        Case c = gen_case(a.seed, SPECIAL_BASE + j, a.thorough());
+        { std::ofstream lc(a.out + "/lastcase.txt"); lc << replay_json(c, a.seed, a.tier, "all", -1) << "\n"; }
+        one_case(c, a.seed, a.tier, out, true);
+        out.count("special_variant_" + str(j % 8));
         if (out.nfail) out.oracle.flush();
     }
     for (auto& kv : g_max) out.counters["max_milli_" + kv.first] = (long) std::min((LD) 1e15L, kv.second * 1000);
